@@ -494,6 +494,16 @@ macro_rules! tok_entry {
                         }
                         j += 1;
                     }
+                    // ... and no second binding for the same token appears anywhere in the table
+                    let mut occupied = 0;
+                    let mut j = 0;
+                    while j < NETCODE_MAX_CLIENTS * 2 {
+                        if s.connect_token_entries[j].is_some() {
+                            occupied += 1;
+                        }
+                        j += 1;
+                    }
+                    assert!(occupied == $n, "a request with an already known token added a second binding (a later request from that address would then be accepted)");
                 }
                 None => {
                     assert!(ok, "fresh token refused");
@@ -539,6 +549,31 @@ fn srv_req_unauth() {
         assert!(s.connect_token_entries[j].is_none(), "unauthentic request registered a token entry (can lock the genuine owner out)");
         j += 1;
     }
+    std::mem::forget(s);
+}
+
+/// C07 / C18: a connection-request datagram is never authenticated by decode (no key is used for it); coming
+/// from an already connected address it must not count as a sign of life of that client
+#[kani::proof]
+#[kani::unwind(40)]
+fn srv_frame_connected_req() {
+    reset_ghost(2);
+    let (mut s, facts) = any_server([true, false]);
+    let (_, addr) = facts[0].unwrap();
+    let lr = s.clients[0].as_ref().unwrap().last_packet_received_time;
+    let mut buf: [u8; 1100] = kani::any();
+    buf[0] = 0; // packet type 0 = connection request, sent in the clear
+    let n: usize = kani::any();
+    kani::assume(n >= 1078 && n <= 1100);
+    let r = s.process_packet_internal(addr, &mut buf[..n]);
+    match &r {
+        Ok(x) => assert!(result_code(x) == 0, "unauthenticated datagram from a connected address produced a payload / event / reply"),
+        Err(_) => {}
+    }
+    std::mem::forget(r);
+    assert!(unsafe { aead::NCALLS } == 0);
+    let c = s.clients[0].as_ref().unwrap();
+    assert!(c.last_packet_received_time == lr, "an unauthenticated connection-request datagram postponed the client's timeout");
     std::mem::forget(s);
 }
 
